@@ -390,6 +390,14 @@ class Check:
             pass
         for l in lines:
             print(l)
+        if os.environ.get("VERIF_SIGS") and self.violations:  # triage aid: the distinct unlisted signatures of this run
+            groups: dict = {}
+            for v in self.violations:
+                k = json.dumps(v["sig"], sort_keys=True)
+                g = groups.setdefault(k, {"n": 0, "what": v["what"]})
+                g["n"] += 1
+            for k, g in sorted(groups.items(), key=lambda kv: -kv[1]["n"]):
+                print("SIG %4d× %s :: %s" % (g["n"], k, g["what"][:400]))
         print("%s %s tier=%s seed=%d: obligations %d/%d, evaluations %d (distinct non-trivial %d), broken %d, violations %d, known findings %d, %.1fs"
               % ("OK" if rc == 0 else "FAIL", self.prop, self.tier, self.seed, n_ok, n_ob, self.evaluations, len(self.distinct),
                  len(self.broken), len(self.violations), len(self.known_seen), wall))
